@@ -59,7 +59,7 @@ func (app *App) MarkReplicationRunning(node *mysql.Node, channel string) {
 
 	if replState.cooldownPassed(app.config.ReplicationRepairCooldown) {
 		status, err := node.ReplicaStatusWithTimeout(app.config.DBTimeout, channel)
-		if err != nil {
+		if err != nil || status == nil {
 			return
 		}
 
@@ -181,6 +181,9 @@ func ChangeSourceAlgorithm(app *App, node *mysql.Node, _ string, channel string)
 	if err != nil {
 		return err
 	}
+	if replicaStatus == nil {
+		return fmt.Errorf("host %s has no replica status on channel '%s'", node.Host(), channel)
+	}
 	// mark current source as error and then trying to change it
 	app.externalReplication.SetSourcesStatus(replicaStatus.GetMasterHost(), mysql.ErrorStatus)
 	for _, source := range *replicationSources {
@@ -249,6 +252,9 @@ func (app *App) createRepairState(hostname, channel string) (*ReplicationRepairS
 	status, err := app.cluster.Get(hostname).ReplicaStatusWithTimeout(app.config.DBTimeout, channel)
 	if err != nil {
 		return nil, err
+	}
+	if status == nil {
+		return nil, fmt.Errorf("host %s has no replica status on channel '%s'", hostname, channel)
 	}
 
 	result := ReplicationRepairState{
